@@ -90,7 +90,9 @@ CLAIMS = {
  'C12': ("STAGE 3 (substituent_order): for EVERY well-formed adjacency list, rings included, on which the traversal succeeds (D17 excepted), after the complete round trip walk, write, read, build every atom's re-read bond list is its original list in the original order, renumbered (injectively) by visit "
          "position, with only the bond it was entered through moved to the front; component roots unchanged; ring-closure digits and branches stay interleaved as listed; stated about walk itself (substituent_order_walk, via loop = recursion, LoopRecL). STAGE 1: a newly reached atom's other bonds are scheduled in exactly the order of its bond list and only the bond(s) back to the atom it was entered from are taken out; a component root "
          "schedules its whole list; on re-reading, the builder records the arrival bond first and appends every later bond / ring digit at the end of the head's list, in place. Additionally: order oracle on the real "
-         "round trip (each re-read bond list must equal the original with the arrival bond moved to the front, under the depth-first order defined by the property text) and S-graph correspondence over every order of every bond list of all small graphs.",
+         "round trip (each re-read bond list must equal the original with the arrival bond moved to the front, under the depth-first order defined by the property text) and S-graph correspondence over every order of every bond list of all small graphs. "
+         "THE ARRIVAL BOND PINNED DOWN (substituent_order_pinned, components_start_at_lowest_unvisited; Lemmas/OrderL.lean, RelabelledP): an atom that starts a component keeps its whole list (when a component starts no visited atom has a bond to an unvisited one, so nothing can be an arrival bond); "
+         "for every other atom the one bond moved to the front leads to an atom visited earlier; at every root event every lower-numbered atom has been visited and everything visited later has a higher number.",
          "Lean 4 proof of the scheduling-order lemmas of traversal and builder + exact bond-list order oracle on the real round trip", "4.12"),
  'C13': ("Theorems in Purr/Props/C13.lean about the ring-number pool, for every sequence of hits (every reachable interleaving of openings and closings): the pool invariant "
          "(open and returned numbers partition 1..counter-1, no duplicates, one entry per unordered pair) holds in every reachable state; an opening hit returns the least number >= 1 not currently open; "
